@@ -919,11 +919,24 @@ func oracleC11(r *Result) []*Violation {
 
 // ---- names (C12) ----
 
+var c12NameErr = regexp.MustCompile(`redeclared|is not an expression|is not a type|no new variables|declared and not used|duplicate field|not a package|cannot call non-function`)
+
 func oracleC12(r *Result) []*Violation {
 	if !r.ok() {
 		return nil
 	}
 	out := typeErrors(r)
+	if r.Case.Scope == "S-gen" {
+		// generic interfaces are in C12's scope for the identifiers (type parameters are names the
+		// method must still resolve); their other defects belong to C09
+		var keep []*Violation
+		for _, v := range out {
+			if c12NameErr.MatchString(v.Diag) {
+				keep = append(keep, v)
+			}
+		}
+		out = keep
+	}
 	tc := r.Typecheck()
 	if tc.ParseErr != nil {
 		return out
